@@ -41,6 +41,7 @@ LEVEL_TEXT = (
     "must give the right rows with at most one completed hook call per materialization.  Third kind of engine: iteration-"
     "rooted trees are transferred to a GenericConcreteEngine subclass that has no payloads for trivial leaves and chained "
     "with its doomed leaf; process() must prune the chain to the processed transfer, whose payload holds the rows."
+    "  Statically empty trees below a materialization in an engine without payloads for doomed relations must be processed without error."
 )
 LEVEL_NOTE = "trusts: harness Processor subclass (vf/core/proc.py) is truthful; ev_multi labels; SQLite; P1, P4, P8"
 RULE = (
